@@ -670,6 +670,10 @@ func randomData(c *core.Ctx, maxN int) gen.C13Data {
 		o.MinLen = 15 + r.Intn(60)
 		o.MaxLen = o.MinLen + r.Intn(40)
 		o.NSeq = 20 + r.Intn(min(maxN, 400)-19)
+		if r.Intn(4) == 0 {
+			// ambiguity codes are symbols like the others for the one-difference test: n against t is a substitution
+			o.Alphabet = []string{"acgtn", "acgtryn"}[r.Intn(2)]
+		}
 	}
 	return gen.C13Random(r, o)
 }
